@@ -78,22 +78,24 @@ Section Machine.
   (* one statement of a program:
        w = w * Plane(ptype=p, ...)  |  w = w * c(...)          (clip = true: the plane's aperture is
                                                                disjoint from all the light of w)
+                                    |  w = w * c(..., ptype=p) (po = Some p: the documented ptype
+                                                               override of a class constructor)
        w = propagate_dft(w, ...) / propagate_fft(w, ...)
        w = <another wavefront, in state s>                     (the planes of the program live on) *)
-  Inductive op := MulType (p : ptype) (clip : bool) | MulClass (c : C) (clip : bool)
+  Inductive op := MulType (p : ptype) (clip : bool) | MulClass (c : C) (po : option ptype) (clip : bool)
                 | Propagate (m : method) | Fresh (s : wstate).
 
   (* a transition system: what each kind of step does to a wavefront in a given state *)
   Record machine := {
     m_mul : wstate -> ptype -> bool -> outcome;      (* Plane(ptype=p).multiply(w) *)
-    m_class : C -> bool -> wstate -> outcome;        (* c(...).multiply(w) *)
+    m_class : C -> option ptype -> bool -> wstate -> outcome;   (* c(..., [ptype=p]).multiply(w) *)
     m_prop : method -> wstate -> outcome             (* propagate_<m>(w, ...) *)
   }.
 
   Definition step (M : machine) (s : wstate) (o : op) : outcome :=
     match o with
     | MulType p clip => m_mul M s p clip
-    | MulClass c clip => m_class M c clip s
+    | MulClass c po clip => m_class M c po clip s
     | Propagate m => m_prop M m s
     | Fresh s' => Yields s'
     end.
@@ -122,7 +124,8 @@ Section Machine.
      [dmul w p]   cell of the "Multiplication rules" table of wavefront.rst (None = "Not allowed")
      [dprop m w]  far-field rows of the propagation table of diffraction.rst for routine m
                   (None = not supported)
-     [cls_ptype c] the ptype an instance of class c carries (planes.rst)
+     [cls_ptype c po] the ptype an instance of class c carries: its default (planes.rst) or the
+                  one given to the constructor
      A refused operation raises TypeError and leaves the operand as it was (state included).
 
      The tables say nothing about the content of a wavefront (fitted tilt, no fields), and
@@ -140,11 +143,11 @@ Section Machine.
 
   Definition doc_machine (dmul : wtype -> ptype -> option wtype)
              (dprop : method -> wtype -> option wtype)
-             (cls_ptype : C -> ptype) (impl : machine) (fft_refuses_tilt : bool) : machine :=
+             (cls_ptype : C -> option ptype -> ptype) (impl : machine) (fft_refuses_tilt : bool) : machine :=
     {| m_mul := fun s p clip =>
          doc_type_outcome s (dmul (ty s) p) (body (next (m_mul impl s p clip)));
-       m_class := fun c clip s =>
-         doc_type_outcome s (dmul (ty s) (cls_ptype c)) (body (next (m_class impl c clip s)));
+       m_class := fun c po clip s =>
+         doc_type_outcome s (dmul (ty s) (cls_ptype c po)) (body (next (m_class impl c po clip s)));
        m_prop := fun m s =>
          match m with
          | Fft => if tilted s && fft_refuses_tilt then Raises ENotImplementedError s
@@ -154,11 +157,11 @@ Section Machine.
 End Machine.
 
 Arguments MulType {C} p clip.
-Arguments MulClass {C} c clip.
+Arguments MulClass {C} c po clip.
 Arguments Fresh {C} s.
 Arguments Propagate {C} m.
 Arguments m_mul {C} m _ _ _.
-Arguments m_class {C} m _ _ _.
+Arguments m_class {C} m _ _ _ _.
 Arguments m_prop {C} m _ _.
 Arguments step {C} M s o.
 Arguments run_program {C} M s ops.
